@@ -380,34 +380,44 @@ Section Impl.
     | LInclude _ _ => Err
     end.
 
-  (* _GD_SetFieldAffixes (include.c:33-185): (ns, px, sx, newns) *)
+  (* _GD_SetFieldAffixes (include.c:33-185): (ns, px, sx, newns), in the order
+     of the C function: suffix, namespace, prefix *)
+  Definition ia_sx (p : pstate) (f : frag) (sxin : str) : res str :=
+    match sxin with
+    | [] => Ok (f_sx f)
+    | _ => if invalid_field sxin 0 (p_std p) (p_ped p) VF_AFFIX then Err else Ok (sxin ++ f_sx f)
+    end.
+
+  Definition ia_ns (p : pstate) (f : frag) (pxin : str) : res (option str * str * bool) :=
+    if pvers_ge p (g_nsaffix P) then
+      (* include.c:80-97: split the token at its last dot *)
+      let '(nsin, pxin') := match pxin with [] => (None, pxin) | _ => split_incl_token pxin end in
+      let nsin2 := match nsin with
+                   | None => match p_ns p with [] => None | cur => Some (cur, cur) end
+                   | Some x => Some x
+                   end in
+      match nsin2 with
+      | Some (nsv, whole) =>
+          if invalid_field whole 0 (p_std p) (p_ped p) VF_NS then Err
+          else Ok (match f_ns f with
+                   | None => Some nsv
+                   | Some fns => Some (match nsv with [] => fns | _ => fns ++ cDOT :: nsv end)
+                   end, pxin', true)
+      | None => Ok (f_ns f, pxin', false)
+      end
+    else Ok (None, pxin, false).
+
+  Definition ia_px (p : pstate) (f : frag) (pxin' : str) : res str :=
+    match pxin' with
+    | [] => Ok (f_px f)
+    | _ => if invalid_field pxin' 0 (p_std p) (p_ped p) VF_AFFIX then Err else Ok (f_px f ++ pxin')
+    end.
+
   Definition set_affixes (p : pstate) (f : frag) (pxin sxin : str)
     : res (option str * str * str * bool) :=
-    bind (match sxin with
-          | [] => Ok (f_sx f)
-          | _ => if invalid_field sxin 0 (p_std p) (p_ped p) VF_AFFIX then Err else Ok (sxin ++ f_sx f)
-          end) (fun sx =>
-    bind (if pvers_ge p (g_nsaffix P) then
-            (* include.c:80-97: split the token at its last dot *)
-            let '(nsin, pxin') := match pxin with [] => (None, pxin) | _ => split_incl_token pxin end in
-            let nsin2 := match nsin with
-                         | None => match p_ns p with [] => None | cur => Some (cur, cur) end
-                         | Some x => Some x
-                         end in
-            match nsin2 with
-            | Some (nsv, whole) =>
-                if invalid_field whole 0 (p_std p) (p_ped p) VF_NS then Err
-                else Ok (match f_ns f with
-                         | None => Some nsv
-                         | Some fns => Some (match nsv with [] => fns | _ => fns ++ cDOT :: nsv end)
-                         end, pxin', true)
-            | None => Ok (f_ns f, pxin', false)
-            end
-          else Ok (None, pxin, false)) (fun '(ns, pxin', newns) =>
-    bind (match pxin' with
-          | [] => Ok (f_px f)
-          | _ => if invalid_field pxin' 0 (p_std p) (p_ped p) VF_AFFIX then Err else Ok (f_px f ++ pxin')
-          end) (fun px => Ok (ns, px, sx, newns)))).
+    bind (ia_sx p f sxin) (fun sx =>
+    bind (ia_ns p f pxin) (fun '(ns, pxin', newns) =>
+    bind (ia_px p f pxin') (fun px => Ok (ns, px, sx, newns)))).
 
   Definition impl_enter (a : incl) (st : ist) : res ist :=
     let p0 := i_p st in let f := i_f st in
@@ -579,42 +589,47 @@ Definition join_ns (root sub : str) : str :=
   | _, _ => root ++ cDOT :: sub
   end.
 
+Definition sa_affix (v : option N) (x : str) : res str :=
+  match x with
+  | [] => Ok []
+  | _ => if invalid_field x 0 (sv_std v) (sv_strict v) VF_AFFIX then Err else Ok x
+  end.
+
+(* the root namespace of the included fragment and the prefix, from the third
+   token [<namespace>.][<prefix>] *)
+Definition sa_ns (v : option N) (root cur pxin : str) : res (str * str) :=
+  if sv_ge v 10 then
+    let '(nso, px) := match pxin with [] => (None, []) | tok => split_incl_token tok end in
+    match nso with
+    | Some (nsv, whole) =>
+        (* a namespace was given: relative to our root namespace it becomes
+           the root namespace of the included fragment (a null tag, as in
+           "/INCLUDE file ." or ".prefix", names our root namespace itself) *)
+        if invalid_field whole 0 (sv_std v) (sv_strict v) VF_NS then Err
+        else Ok (join_ns root nsv, px)
+    | None =>
+        (* no namespace given: the current namespace is used *)
+        match cur with
+        | [] => Ok (root, px)
+        | _ => if invalid_field cur 0 (sv_std v) (sv_strict v) VF_NS then Err
+               else Ok (join_ns root cur, px)
+        end
+    end
+  else
+    (* before Standards Version 10 there are no namespaces; including from
+       inside a namespace under an older version is not described *)
+    match root, cur with
+    | [], [] => Ok ([], pxin)
+    | _, _ => Unspec
+    end.
+
 Definition spec_enter (a : incl) (st : sst) : res sst :=
   let v := s_ver st in
   if negb (s_dir_ok v 3) then Err else
   if Nat.leb 31 (s_depth st) then Err else        (* GD_MAX_RECURSE_LEVEL: at most 31 nested inclusions *)
-  bind (match in_sx a with
-        | [] => Ok []
-        | sx => if invalid_field sx 0 (sv_std v) (sv_strict v) VF_AFFIX then Err else Ok sx
-        end) (fun sx =>
-  bind (if sv_ge v 10 then
-          let '(nso, px) := match in_px a with [] => (None, []) | tok => split_incl_token tok end in
-          match nso with
-          | Some (nsv, whole) =>
-              (* a namespace was given: relative to our root namespace it becomes
-                 the root namespace of the included fragment (a null tag, as in
-                 "/INCLUDE file ." or ".prefix", names our root namespace itself) *)
-              if invalid_field whole 0 (sv_std v) (sv_strict v) VF_NS then Err
-              else Ok (join_ns (s_root st) nsv, px, true)
-          | None =>
-              (* no namespace given: the current namespace is used *)
-              match s_cur st with
-              | [] => Ok (s_root st, px, false)
-              | cur => if invalid_field cur 0 (sv_std v) (sv_strict v) VF_NS then Err
-                       else Ok (join_ns (s_root st) cur, px, true)
-              end
-          end
-        else
-          (* before Standards Version 10 there are no namespaces; including from
-             inside a namespace under an older version is not described *)
-          match s_root st, s_cur st with
-          | [], [] => Ok ([], in_px a, false)
-          | _, _ => Unspec
-          end) (fun '(root', px, _) =>
-  bind (match px with
-        | [] => Ok []
-        | _ => if invalid_field px 0 (sv_std v) (sv_strict v) VF_AFFIX then Err else Ok px
-        end) (fun px' =>
+  bind (sa_affix v (in_sx a)) (fun sx =>
+  bind (sa_ns v (s_root st) (s_cur st) (in_px a)) (fun '(root', px) =>
+  bind (sa_affix v px) (fun px' =>
   Ok {| s_ent := s_ent st; s_nfrag := S (s_nfrag st); s_depth := S (s_depth st); s_ver := v;
         s_cur := [];                             (* current namespace starts at the new root *)
         s_inh := eff (s_inh st) (s_own st);      (* what is in force at the point of inclusion *)
@@ -705,5 +720,25 @@ Definition dotns_tok (tok : str) : bool :=
 Definition tree_reprlike := tree_feat (fun n => repr_like (undot n)) none_f none_f.
 Definition tree_indexlike := tree_feat index_like index_like none_f.
 Definition tree_dotns := tree_feat none_f none_f dotns_tok.
-Definition tree_plain (t : list line) : bool :=
-  negb (tree_reprlike t) && negb (tree_indexlike t) && negb (tree_dotns t).
+(* the static region of the agreement theorem: every token is read alike by
+   _GD_BuildCode and by the Standards, no /INCLUDE has a null namespace tag *)
+Definition name_ok (n : str) : bool := plain_name n && plain_name (parent_part n).
+
+Definition okl (l : line) : bool :=
+  match l with
+  | LReference c => plain_code c
+  | LHidden n => name_ok n
+  | LField n k => name_ok n && match k with KBit i => plain_code i | KRaw _ => true end
+  | LAlias n t => name_ok n && plain_code t
+  | LInclude a _ => negb (dotns_tok (in_px a))
+  | _ => true
+  end.
+
+Fixpoint line_plain (l : line) : bool :=
+  okl l && match l with
+           | LInclude _ sub => (fix go (ls : list line) : bool :=
+                                  match ls with [] => true | x :: r => line_plain x && go r end) sub
+           | _ => true
+           end.
+
+Definition tree_plain (t : list line) : bool := forallb line_plain t.
